@@ -23,6 +23,25 @@ def build(node, owned=None):
     return op
 
 
+def rebuilt(node, prime=None):
+    """An operator obtained the way training loops obtain theirs: build the expression over some data, use it (``prime``),
+    flatten it, and rebuild it from the array parameters of the same expression over *other* data.  -> (operator, spec of
+    the data it now holds), or None when the expression cannot be rebuilt that way."""
+    from harness.refmodel import reseed
+    node2 = reseed(node)
+    if node2 is None:
+        return None
+    S_ = build(node)
+    if prime is not None:
+        prime(S_)
+    T_ = build(node2)
+    ps, unflatten = S_.flatten()
+    pt, _ = T_.flatten()
+    if len(ps) != len(pt) or any(np.shape(a) != np.shape(b) or np.asarray(a).dtype != np.asarray(b).dtype for a, b in zip(ps, pt)):
+        return None
+    return unflatten(pt), node2
+
+
 def layout(A, node):
     """Memory layout of a caller-owned matrix, decided by the leaf's seed: mostly row-major, sometimes column-major, sometimes
     a non-contiguous view of a larger buffer (the values are the same)."""
@@ -58,7 +77,9 @@ def _build(node, owned=None):
         if node.get("gen") == "flip":  # the product is a view of the operand
             # (a view for an operand of the operator's own dtype; an operand of another dtype is promoted as a stored matrix would)
             return ops.LinearOperator(A.dtype, A.shape, matmat=lambda X, dt=A.dtype: X[::-1] if X.dtype == dt else X[::-1].astype(np.result_type(X.dtype, dt)))
-        return ops.LinearOperator(A.dtype, A.shape, matmat=lambda X, A=A: A @ X)
+        # (user-defined operators may spell the dtype as NumPy's scalar type, as cola's own docstrings do: np.complex128, not
+        # np.dtype('complex128'))
+        return ops.LinearOperator(A.dtype.type if int(node.get("seed", 0)) % 3 == 0 else A.dtype, A.shape, matmat=lambda X, A=A: A @ X)
     if k == "Triangular":
         a = P.arrays(node)
         return ops.Triangular(own(a["A"]), lower=a["lower"])
@@ -108,6 +129,12 @@ def _build(node, owned=None):
         A = _build(node["arg"], owned)
         c = P.as_scalar(node["c"])
         return c * A if node.get("side", "l") == "l" else A * c
+    if k == "Symm":
+        A = _build(node["arg"], owned)
+        V = {("T", "ctor"): lambda: ops.Transpose(A), ("T", "fn"): lambda: A.T, ("H", "ctor"): lambda: ops.Adjoint(A),
+             ("H", "fn"): lambda: A.H}[(node["form"], node.get("view", "ctor"))]()
+        pair = (A, V) if node.get("order", 0) == 0 else (V, A)
+        return ops.Sum(*pair) if via == "ctor" else pair[0] + pair[1]
     if k == "Gram":
         A = _build(node["arg"], owned)
         A2 = A if node.get("same", True) else _build(node["arg"], owned)  # merely equal, not identical
